@@ -19,6 +19,9 @@ L.update(lemmas(COQ + '/Proofs/C15Owners.v'))
 L.update(lemmas(COQ + '/Proofs/C15Strftime.v'))
 L.update(lemmas(COQ + '/Proofs/C15Wide.v'))
 L.update(lemmas(COQ + '/Proofs/C15Text.v'))
+for extra in ('C15Utf8', 'C15SfItems', 'C15Parse', 'C15Deep', 'C15Format', 'C15Errors', 'C15Serde'):
+    if os.path.exists(COQ + '/Proofs/%s.v' % extra):
+        L.update(lemmas(COQ + '/Proofs/%s.v' % extra))
 
 SECTIONS = [
  ("NaiveDate constructors (C01): every i32 / u32 argument; never a trap; the date returned is valid", [
@@ -76,6 +79,8 @@ SECTIONS = [
    ('C15_dtz_with_date_field_partial', 'dtz_with_date_field_partial', 'older form: wall clock inside the NaiveDateTime range'),
    ('C15_dtz_days_partial', 'dtz_days_partial', 'older form: as above'),
    ('C15_dtz_months_partial', 'dtz_months_partial', 'older form: as above'),
+   ('C15_mlt_selectors', 'mlt_selectors', 'MappedLocalTime::single / earliest / latest are pattern matches in the model (no trapping step); what they return'),
+   ('C15_offset_from_local_total', 'offset_from_local_total', 'TimeZone::offset_from_local_date / offset_from_local_datetime of FixedOffset and Utc (op c15.offlocal): the constant answer Single(self), twice'),
  ]),
  ("Month stepping, date-field replacement, week helpers (C08): every date, every u32 / i32 argument", [
    ('C15_date_months_total', 'date_months_total', ''),
@@ -93,7 +98,10 @@ SECTIONS = [
    ('C15_parsed_setters_total', 'parsed_setters_total', 'all 22 set_* methods, every i64 argument'),
    ('C15_to_naive_date_total', 'to_naive_date_total', 'every field state the setters can produce (typed); a returned date is valid'),
    ('C15_to_naive_time_total', 'to_naive_time_total', ''),
-   ('C15_to_naive_datetime_with_offset_total', 'to_naive_datetime_with_offset_total', 'every i32 offset; includes the minimum timestamp with second 60 (dd0e5ce); to_datetime / to_datetime_with_timezone go through it (correspondence + judge for their last step)'),
+   ('C15_to_naive_datetime_with_offset_total', 'to_naive_datetime_with_offset_total', 'every i32 offset; includes the minimum timestamp with second 60 (dd0e5ce)'),
+   ('C15_to_datetime_total', 'to_datetime_total', 'Parsed::to_datetime on every typed field state, the last step (offset range check, from_local_datetime) included (C14_to_datetime_never_panics); a returned date-time is well formed'),
+   ('C15_to_datetime_with_timezone_total', 'to_datetime_with_timezone_total', 'Parsed::to_datetime_with_timezone for every FixedOffset / Utc zone (C14_to_datetime_with_timezone_never_panics); the result carries the zone\'s offset'),
+   ('C15_parsed_getters_valid', 'parsed_getters_valid', 'the 21 getters (year .. offset) are plain projections in the model (no trapping step): on every typed state -- every state the setters (C14_setters_keep_typed) and the readers (C15_parse_items_total) produce -- a returned value is a value of the getter\'s Rust type'),
  ]),
  ("Weekday / Month conversions and FromStr (C19)", [
    ('C15_weekday_month_conversions', 'weekday_month_conversions', 'all thirteen FromPrimitive / TryFrom conversions are plain functions in the model: a returned value is a Weekday / Month'),
@@ -105,14 +113,37 @@ SECTIONS = [
    ('C15_ndt_links_nonleap', 'ndt_links_nonleap', 'the older route: C17 premise discharged from C02 and C03 for non-leap date-times'),
    ('C15_ndt_round_total_partial', 'ndt_round_total_partial', 'older form: non-leap date-times'),
  ]),
- ("Parsers", [
+ ("Parsers.  [str_ok s]: s is well-formed UTF-8 (Base/Utf8.v; the same strings as Model/Strftime.v's predicate: C15_utf8_predicates_agree) of a length a Rust string can have (at most u64::MAX bytes; the RFC 2822 reader and the format-string iterator do usize arithmetic on lengths).  The premise SF_ERROR_CONSUMES = true is the translator's reading of the repaired error() of src/format/strftime.rs (d664290), as in the StrftimeItems theorems below", [
    ('C15_parse_from_rfc3339_total', 'parse_from_rfc3339_total', 'every well-formed UTF-8 string (C10)'),
-   ('C15_parse_items_total_partial', 'parse_items_total', 'format::parse / parse_and_remainder with an explicit item list (C13).  PARTIAL: item lists without Fixed::RFC2822 (C11 owns that reader: C11_comment_total, C11_zone_scanner_total, C11_no_panic_on_grammar_partial; otherwise correspondence + judge)'),
+   ('C15_parse_from_rfc2822_total', 'parse_from_rfc2822_total', 'DateTime::parse_from_rfc2822: EVERY string (C11_parse_never_panics + C14_to_datetime_never_panics); a returned date-time is well formed'),
+   ('C15_parse_items_total', 'parse_items_full', 'format::parse / parse_and_remainder over EVERY item list whose literals are strings, the Fixed::RFC2822 item included (C13_parse_never_panics), every input: never a trap; an accepted input leaves a typed field state (Proofs/C15Parse.v) and a well-formed remainder.  Supersedes C15_parse_items_total_partial'),
+   ('C15_parse_items_total_partial', 'parse_items_total', 'the older form (kept under its name; superseded by C15_parse_items_total): item lists without Fixed::RFC2822'),
+   ('C15_utf8_predicates_agree', 'utf8_valid_eq', 'the two executable statements of UTF-8 well-formedness in the models accept the same strings'),
+   ('C15_strftime_items_wellformed', 'yields_wf', 'every item the strict format-string iterator yields is well formed: a Literal carries a well-formed string ([st_ok]: strict mode, well-formed remainder of at most u64::MAX bytes, well-formed queued items; [st_ok_new]: StrftimeItems::new(fmt) is such a state)'),
+   ('C15_date_parse_from_str_total', 'date_parse_from_str_total', 'NaiveDate::parse_from_str(s, fmt): EVERY format string, EVERY input -- iterator, lazily driven reader (C13_parse_sf_loop_is_parse_items), to_naive_date; a returned date is valid'),
+   ('C15_time_parse_from_str_total', 'time_parse_from_str_total', 'NaiveTime::parse_from_str'),
+   ('C15_ndt_parse_from_str_total', 'ndt_parse_from_str_total', 'NaiveDateTime::parse_from_str'),
+   ('C15_dt_parse_from_str_total', 'dt_parse_from_str_total', 'DateTime::<FixedOffset>::parse_from_str'),
+   ('C15_date_parse_and_remainder_total', 'date_parse_and_remainder_total', 'T::parse_and_remainder(s, fmt): the value is valid and the remainder handed back is a string again'),
+   ('C15_time_parse_and_remainder_total', 'time_parse_and_remainder_total', ''),
+   ('C15_ndt_parse_and_remainder_total', 'ndt_parse_and_remainder_total', ''),
+   ('C15_dt_parse_and_remainder_total', 'dt_parse_and_remainder_total', ''),
+   ('C15_naive_date_from_str_total', 'naive_date_from_str_total', 'the FromStr impls built on the item reader with the fixed item lists of Gen/TextForms.v (Model/FromStr.v): EVERY input'),
+   ('C15_naive_time_from_str_total', 'naive_time_from_str_total', 'three reader calls (the second may fail and is then ignored) and to_naive_time'),
+   ('C15_naive_datetime_from_str_total', 'naive_datetime_from_str_total', ''),
+   ('C15_datetime_fixed_from_str_total', 'datetime_fixed_from_str_total', 'the relaxed RFC 3339 reader (C13_rfc3339_relaxed_never_panics), trailing white space, to_datetime'),
+   ('C15_datetime_utc_from_str_total', 'datetime_utc_from_str_total', 'the same, then with_timezone(&Utc)'),
+   ('C15_fixed_offset_from_str_total', 'fixed_offset_from_str_total', 'the offset scanner (C13_timezone_offset_never_panics), then east_opt'),
  ]),
  ("The RFC 3339 renderers never trap: EVERY well-formed date-time -- any year (the one-day headroom seen through an offset included: the repaired defect of to_rfc3339_opts), any offset (seconds included), leap-second fraction on any second -- and every SecondsFormat (0 Secs .. 4 AutoSi).  The writer is total (Proofs/C15Text.v on the writer lemmas of C09 / C10 / C20); what the text IS is C10's theorem on its writer domain (C10_writer_in_grammar)", [
    ('C15_to_rfc3339_total', 'to_rfc3339_total', ''),
    ('C15_to_rfc3339_opts_total', 'to_rfc3339_opts_total', ''),
    ('C15_to_rfc3339_opts_total_partial', 'to_rfc3339_opts_total_partial', 'older form: C10 writer domain (whole-minute offsets, wall-clock year 0..9999, leap-second field only on second 59)'),
+ ]),
+ ("DelayedFormat never traps (Proofs/C15Format.v): EVERY item -- every Numeric with every Pad, every Fixed incl. the internal ones and the RFC 2822 / RFC 3339 items, literals, the Error item -- on EVERY value of the five kinds (NaiveDate, NaiveTime, NaiveDateTime, DateTime<FixedOffset> with any offset and the wall-clock day one day outside the date range, DateTime<Utc>): the text, or fmt::Error by value (an item the value has no field for; a year outside 0..=9999 under the RFC 2822 item; the Error item).  Hence write_to / Display over arbitrary item lists and over StrftimeItems (strict or lenient) of every format string.  What the text IS on the documented family: C12_format_spec_family", [
+   ('C15_format_item_never_traps', 'format_item_never_traps', 'one item; [Proofs.C12.args_view a sv]: the formatter arguments denote a value (C12_args_view_date .. C12_args_view_dtz_all: every value has such a view)'),
+   ('C15_delayed_format_items_total', 'delayed_format_items_total', 'DelayedFormat::write_to / Display over an arbitrary item list (format_with_items), the five kinds of value'),
+   ('C15_delayed_format_strftime_total', 'delayed_format_strftime_total', 'DelayedFormat<StrftimeItems>: every format string, strict (repaired error()) or lenient (op c15.writeto, sf.fmt, sf.fmtl)'),
  ]),
  ("Debug / Display of values never trap (to_string() / format!(\"{:?}\") panic on a writer error: there is none): every valid NaiveDate, NaiveTime, NaiveDateTime (leap-second fractions included), every FixedOffset (seconds included), Utc, and every well-formed DateTime<Tz> ([utc] = true: Tz = Utc) -- wall clock in the one-day headroom included.  What the text IS: C09's shape theorems (C09_shape_date ...) on their domain", [
    ('C15_show_date_total', 'show_date_total', ''),
@@ -121,6 +152,24 @@ SECTIONS = [
    ('C15_show_fixed_offset_total', 'show_fixed_offset_total', ''),
    ('C15_show_utc_total', 'show_utc_total', ''),
    ('C15_show_dtz_total', 'show_dtz_total', ''),
+ ]),
+ ("Display / Debug of the error types, Debug of IsoWeek and of WeekdaySet (ops c15.errtext, c15.isoweek.dbg, c15.wdset.dbg; Proofs/C15Errors.v).  The impls write a literal (read from the sources by the translator: Gen/ErrText.v) or format two integers; there is no failing step in the model, so to_string() / format!(\"{:?}\") of these values cannot panic on a writer error.  [err_dom which variant]: the selector names a value of an error type -- which 0 ParseError (variant = ParseErrorKind 0..6), 1 / 2 OutOfRange Display / Debug, 3 / 4 ParseMonthError, 5 / 6 ParseWeekdayError, 7 RoundingError (variant 0..2), 8 OutOfRangeError", [
+   ('C15_error_texts_total', 'error_texts_total', 'every value of every error type has a text: a non-empty well-formed string'),
+   ('C15_error_texts_domain', 'error_texts_domain', 'and no other selector has one'),
+   ('C15_isoweek_debug_total', 'isoweek_debug_total', 'format!(\"{:?}\", date.iso_week()) for every date (the ISO week exists: C15_fact_iso_week_total)'),
+   ('C15_wdset_debug_total', 'wdset_debug_total', 'Debug of WeekdaySet: the prefix, exactly seven binary digits, the suffix'),
+ ]),
+ ("The serde carriers (Model/Serde.v; stream, data formats and round trips are C20's) never trap, at full strength (Proofs/C15Serde.v): the string deserializers are the FromStr impls (visit_str = value.parse()) -- every string; a visitor method an impl does not define is serde's invalid-type error, by value; [sval_ok v]: a string handed to visit_str is a string of a length a Rust string can have.  The string serializers of NaiveTime / NaiveDateTime: every value, leap-second fractions on any second included.  The sixteen timestamp helper modules ([Proofs.C20Ts.plain_mods] / [option_mods]: the module numbers of Gen/SerdeConsts.v): serialize of EVERY well-formed date-time (C20_ts_serialize_spec states the written number for non-leap values)", [
+   ('C15_serde_de_date_total', 'de_date_total', ''),
+   ('C15_serde_de_time_total', 'de_time_total', ''),
+   ('C15_serde_de_ndt_total', 'de_ndt_total', ''),
+   ('C15_serde_de_dt_fixed_total', 'de_dt_fixed_total', ''),
+   ('C15_serde_de_dt_utc_total', 'de_dt_utc_total', ''),
+   ('C15_serde_de_names_total', 'de_names_total', 'Weekday / Month: the premises of C15_weekday_month_from_str_total on the string'),
+   ('C15_serde_ser_time_total', 'ser_time_total', ''),
+   ('C15_serde_ser_ndt_total', 'ser_ndt_total', ''),
+   ('C15_serde_ts_serialize_total', 'ts_serialize_total', 'timestamp() / _millis() / _micros() do not overflow anywhere in the range (C02_timestamp*_no_overflow), timestamp_nanos_opt() = None is the custom error'),
+   ('C15_serde_ts_serialize_option_total', 'ts_serialize_option_total', ''),
  ]),
  ("The format-string iterator NEVER TRAPS (dedicated proof, Proofs/C15Strftime.v: every slice of strftime.rs is taken at a character boundary of the well-formed input, the index arithmetic stays in usize, assert!(nextspec > 0) holds), strict or lenient, with or without the repair of error(); with C12's termination theorem: it yields a finite item list of at most 13 items per byte, and StrftimeItems::parse / parse_to_owned / count return", [
    ('C15_strftime_never_panics', 'strftime_never_panics', ''),
@@ -135,7 +184,8 @@ SECTIONS = [
 ]
 HEADER = '''(** C15 -- fallible operations fail by value, not by panic or hang.
     Theorem-only file (written by tools/c15_mkprops.py): each theorem is closed by [exact] of a lemma of
-    Proofs/C15.v, Proofs/C15Owners.v, Proofs/C15Wide.v, Proofs/C15Text.v or Proofs/C15Strftime.v and followed by
+    Proofs/C15.v, Proofs/C15Owners.v, Proofs/C15Wide.v, Proofs/C15Text.v, Proofs/C15Strftime.v, Proofs/C15Deep.v (with C15Parse.v,
+    C15SfItems.v, C15Utf8.v) and followed by
     [Print Assumptions].
 
     C15 is cross-cutting: its model is the union of all properties' models (Model/C15.v) and its
@@ -155,8 +205,9 @@ HEADER = '''(** C15 -- fallible operations fail by value, not by panic or hang.
     Which inventory entries (gen/C15_inventory.json, printed in the evidence) have such a theorem and
     which are covered by correspondence + judge only is listed at the end of this file. *)
 From Coq Require Import ZArith List Bool String.
-From V Require Import Base.Int Base.IO Spec.Gregorian Model.Strftime Proofs.C15 Proofs.C15Owners Proofs.C15Strftime Proofs.C15Wide Proofs.C15Text.
-From V Require Model.Date Model.Time Model.DateTime Model.TimeDelta Model.DateExtra Model.Parsed Model.Parse Model.Rfc3339 Model.Show Model.Round Model.C02 Model.C15 Model.C19 Gen.Strftime.
+From V Require Import Base.Int Base.IO Spec.Gregorian Model.Strftime Proofs.C15 Proofs.C15Owners Proofs.C15Strftime Proofs.C15Wide Proofs.C15Text Proofs.C15Utf8 Proofs.C15SfItems Proofs.C15Deep Proofs.C15Format Proofs.C15Errors Proofs.C15Serde.
+From V Require Model.Date Model.Time Model.DateTime Model.TimeDelta Model.DateExtra Model.Parsed Model.Parse Model.Rfc3339 Model.Show Model.Round Model.C02 Model.C15 Model.C19 Gen.Strftime
+               Base.Utf8 Model.Scan Model.FromStr Model.Rfc2822 Model.Format Model.Serde Model.ScanNames Proofs.C12 Proofs.C13Total Proofs.C13Time Proofs.C14 Proofs.C19 Proofs.C20Ts.
 Import ListNotations.
 Open Scope Z_scope.
 
@@ -185,6 +236,13 @@ out.append(TAIL)
 if 'wide_hypotheses_inhabited' in L:
     out.append('(* ... and those of the full forms: [z_wide] = MAX_UTC\'s last second with a leap-second fraction seen from +02:00 (wall clock\n   one day outside the date range), [l_wide] = 2016-12-31T23:59:60.5 (Proofs/C15Text.v) *)')
     out.append('Example C15_wide_hypotheses_inhabited :\n  %s.\nProof. exact wide_hypotheses_inhabited. Qed.\nPrint Assumptions C15_wide_hypotheses_inhabited.\n' % L['wide_hypotheses_inhabited'][1])
+if 'serde_hypotheses_inhabited' in L:
+    out.append('Example C15_serde_hypotheses_inhabited :\n  %s.\nProof. exact serde_hypotheses_inhabited. Qed.\nPrint Assumptions C15_serde_hypotheses_inhabited.\n' % L['serde_hypotheses_inhabited'][1])
+if 'errors_hypotheses_inhabited' in L:
+    out.append('Example C15_errors_hypotheses_inhabited :\n  %s.\nProof. exact errors_hypotheses_inhabited. Qed.\nPrint Assumptions C15_errors_hypotheses_inhabited.\n' % L['errors_hypotheses_inhabited'][1])
+if 'deep_hypotheses_inhabited' in L:
+    out.append('(* ... and those of the text entry points (Proofs/C15Deep.v): [ex_fmt] = "%a, %d %b %Y %T %z \\u00e9", [ex_text] = "Tue, 01 Jul 2003 10:52:37 +0200 \\u00e9" *)')
+    out.append('Example C15_deep_hypotheses_inhabited :\n  %s.\nProof. exact deep_hypotheses_inhabited. Qed.\nPrint Assumptions C15_deep_hypotheses_inhabited.\n' % L['deep_hypotheses_inhabited'][1])
 # closing comment: the inventory by kind of no-panic evidence
 table = json.load(open(os.path.join(ROOT, 'gen', 'C15_inventory.json')))
 groups = {}
@@ -211,6 +269,24 @@ for kind, test in (('THEOREM of this file', lambda t: t.startswith('C15_') and n
                 row += e + '; '
             lines.append(row.rstrip())
     lines.append('')
+lines += [
+ '   What the theorems above do NOT state, and why (covered by the correspondence run + judge only):',
+ '     - premises kept: [str_ok] / the length bounds (a Rust string has at most isize::MAX bytes, so the premise',
+ '       excludes nothing real); Gen.Strftime.SF_ERROR_CONSUMES = true (the repaired error() of strftime.rs: on an',
+ '       unrepaired tree the strict iterator yields Error items for ever and the theorems do not apply -- the',
+ '       check then reports the hang through c15.itemcount / sf.items); [Proofs.C14.typed] (the Rust types of the',
+ '       Parsed fields); [Proofs.C12.args_view] (discharged for every value by the *_has_view lemmas of',
+ '       Proofs/C15Format.v, stated inside C15_delayed_format_items_total / _strftime_total);',
+ '     - the 45 entries under OWNER: the owner\'s theorem already has the form [f args = Val ...] for all typed',
+ '       arguments; they are not restated here (a restatement would add no proof);',
+ '     - not modelled at all, hence outside every theorem: the Local zone and its tz_info reader (C05 / C16 / C18,',
+ '       environment dependent; excluded from the inventory by the property text), the locale-aware formatting',
+ '       of the unstable-locales feature, serde\'s own dispatch and the data formats (C20 trusted base), rkyv /',
+ '       arbitrary glue, and everything core::fmt does below a write! with arguments (padding of integers:',
+ '       modelled by Model.Format.fmt_int, compared with the code by the correspondence run);',
+ '     - the link between model and code itself: every theorem is about the Gallina model; that the model IS the',
+ '       code is the correspondence run (same cases through implrun and modelrun) -- see trusted_base.json.',
+ '']
 lines.append('*)')
 out.append('\n'.join(lines))
 open(os.path.join(COQ, 'Props', 'C15.v'), 'w').write('\n'.join(out) + '\n')
